@@ -20,6 +20,13 @@ Recognised shapes of AnfTransformer.visit_<Node> (anything else raises Untransla
   transform(node, ctx, config=None):   return AnfTransformer(ctx, config).visit(node)       (nothing else)
   no state carried between calls: no use of `anno` anywhere in the module (annotations written on / read from
   the tree), no global/nonlocal/globals(), module-level assignments only of lambdas, constants and object()
+  _do_transform_node(node):  temp_name = self._gensym.new_name()
+                             temp_assign = templates.replace('<T> = <E>', <T>=temp_name, <E>=node)[0]
+                             self._add_pending_statement(temp_assign)
+                             answer = templates.replace('<T>', <T>=temp_name)[0]
+                             return answer                                           -> hoist_template_gen
+      (the template text and its two placeholder names: identifiers the transformer itself puts into play next to
+      the user's; the generator of the check renames program variables to them)
 Also translated: the default configuration built in __init__ when config is None, the classes
 _ensure_node_in_anf treats as transparent wrappers, and DummyGensym.new_name (stem, base).
 """
@@ -111,10 +118,53 @@ def _cls_names(node):
     _fail(node, 'class expression ' + ast.unparse(node))
 
 
-def translate(repo):
+def _replace_call(node):
+    """templates.replace(<str>, k=v, ...)[0] -> (template text, {k: unparse(v)}) or None"""
+    if isinstance(node, ast.Subscript) and isinstance(node.slice, ast.Constant) and node.slice.value == 0:
+        c = node.value
+        if isinstance(c, ast.Call) and ast.unparse(c.func) == 'templates.replace' and len(c.args) == 1 \
+                and isinstance(c.args[0], ast.Constant) and isinstance(c.args[0].value, str) \
+                and all(k.arg is not None for k in c.keywords):
+            return c.args[0].value, dict((k.arg, ast.unparse(k.value)) for k in c.keywords)
+    return None
+
+
+def hoist_template(cls):
+    """shape of AnfTransformer._do_transform_node -> (template text, target placeholder, value placeholder)"""
+    fn = [n for n in cls.body if isinstance(n, ast.FunctionDef) and n.name == '_do_transform_node']
+    if len(fn) != 1:
+        raise Untranslatable('untranslatable: anf.py: _do_transform_node not found')
+    fn = fn[0]
+    b = _strip(fn.body)
+    if not (len(b) == 5 and [a.arg for a in fn.args.args] == ['self', 'node']
+            and ast.unparse(b[0]) == 'temp_name = self._gensym.new_name()'
+            and isinstance(b[1], ast.Assign) and ast.unparse(b[1].targets[0]) == 'temp_assign'
+            and ast.unparse(b[2]) == 'self._add_pending_statement(temp_assign)'
+            and isinstance(b[3], ast.Assign) and ast.unparse(b[3].targets[0]) == 'answer'
+            and ast.unparse(b[4]) == 'return answer'):
+        _fail(fn, 'shape of _do_transform_node')
+    r1, r2 = _replace_call(b[1].value), _replace_call(b[3].value)
+    if r1 is None or r2 is None:
+        _fail(fn, 'shape of the templates.replace calls of _do_transform_node')
+    (t1, k1), (t2, k2) = r1, r2
+    tgt = [k for k, v in k1.items() if v == 'temp_name']
+    val = [k for k, v in k1.items() if v == 'node']
+    if not (len(k1) == 2 and len(tgt) == 1 and len(val) == 1 and k2 == {t2: 'temp_name'} and t2.isidentifier()
+            and tgt[0].isidentifier() and val[0].isidentifier()):
+        _fail(fn, 'placeholders of the templates of _do_transform_node')
+    if '"' in t1 or any(ord(ch) < 32 or ord(ch) > 126 for ch in t1):
+        _fail(fn, 'template text not printable')
+    return t1, tgt[0], val[0]
+
+
+def parse_anf(repo):
     path = os.path.join(repo, 'malt', 'pyct', 'common_transformers', 'anf.py')
     with open(path) as f:
-        tree = ast.parse(f.read())
+        return ast.parse(f.read())
+
+
+def translate(repo):
+    tree = parse_anf(repo)
     # state that transform() could carry from one call to the next
     for n in ast.walk(tree):
         if isinstance(n, ast.Name) and n.id in ('anno', 'globals') or isinstance(n, (ast.Global, ast.Nonlocal)):
@@ -145,6 +195,7 @@ def translate(repo):
             ensure = n
     if init is None or ensure is None:
         raise Untranslatable('untranslatable: anf.py: __init__/_ensure_node_in_anf not found')
+    hoist = hoist_template(cls)
     # default configuration: if config is None: <name> = (classes); self._overrides = [(ASTEdgePattern(ANY, ANY, X), LEAVE|REPLACE), ...]
     rules = None
     for s in ast.walk(init):
@@ -249,5 +300,7 @@ def translate(repo):
            'Definition wrappers_gen : list string := [%s].' % '; '.join(q(w) for w in wrappers), '',
            'Definition trivial_types_gen : list string := [%s].' % '; '.join(q(t) for t in trivial), '',
            'Definition gensym_stem_gen : string := %s.' % q(stem + sep),
-           'Definition gensym_base_gen : nat := %d.' % base, '']
+           'Definition gensym_base_gen : nat := %d.' % base, '',
+           '(* template instantiated for every hoisted operand, placeholder of the temporary, placeholder of the operand *)',
+           'Definition hoist_template_gen : string * string * string := (%s, %s, %s).' % tuple(q(x) for x in hoist), '']
     return '\n'.join(out)
